@@ -83,7 +83,20 @@ func verifNewClient(k *verifCall, tries int) {
 func verifRunCall(tries, nmsgs, ctxMode, closeMode, garbageLen int) *verifCall {
 	k := &verifCall{conn: newVerifConn(), ctxAt: -1, closeAt: -1}
 	verifNewClient(k, tries)
-	if garbageLen >= 0 {
+	if garbageLen >= 100 {
+		// a well-formed relay message (garbageLen-99 levels) wrapping an ADVERTISE with a symbolic
+		// transaction id (possibly the call's own): not a client message, must be dropped
+		var x dhcpv6.TransactionID
+		copy(x[:], verifBytes("relayed.xid", 3))
+		var d dhcpv6.DHCPv6 = &dhcpv6.Message{MessageType: dhcpv6.MessageTypeAdvertise, TransactionID: x}
+		for lvl := 0; lvl <= garbageLen-100; lvl++ {
+			r := &dhcpv6.RelayMessage{MessageType: dhcpv6.MessageType(12 + verifU8("relayed.type")&1), HopCount: uint8(lvl),
+				LinkAddr: make(net.IP, 16), PeerAddr: make(net.IP, 16)}
+			r.AddOption(dhcpv6.OptRelayMessage(d))
+			d = r
+		}
+		k.conn.deliver(0, d.ToBytes())
+	} else if garbageLen >= 0 {
 		g := verifBytes("garbage", garbageLen)
 		if garbageLen > 0 {
 			// keep it undecodable: relay message types are rejected by the client's decoder
